@@ -63,15 +63,20 @@ Definition hex_to_compact (hex : bytes) : bytes :=
     end
   else n2b fl :: decode_nibbles hex.
 
-(* compactToHex: base[0] on an empty compact key is an index-out-of-range panic *)
-Definition compact_to_hex (c : bytes) : res bytes :=
-  let base := removelast (keybytes_to_hex c) in
-  match base with
-  | [] => Panic
-  | b0 :: _ =>
-    let base := if 2 <=? b2n b0 then base ++ [term] else base in
-    let chop := 2 - N.land (b2n b0) 1 in
-    Ok (skipn (N.to_nat chop) base)
+(* compactToHex: an empty compact key is returned as it is (len(compact) == 0);
+   otherwise base has at least two nibbles, so base[0] and base[chop:] are in range *)
+Definition compact_to_hex (c : bytes) : bytes :=
+  match c with
+  | [] => []
+  | _ =>
+    let base := removelast (keybytes_to_hex c) in
+    match base with
+    | [] => []                                         (* unreachable: c is non-empty *)
+    | b0 :: _ =>
+      let base := if 2 <=? b2n b0 then base ++ [term] else base in
+      let chop := 2 - N.land (b2n b0) 1 in
+      skipn (N.to_nat chop) base
+    end
   end.
 
 (* hexToKeybytes: panics on odd length *)
@@ -148,13 +153,13 @@ Fixpoint decode_node (fuel : nat) (hash : option bytes) (buf : bytes) (gen : N) 
           | None => Err
           | Some (kbuf, rest) =>
             let fl := mkFlag hash gen false in
-            bind (compact_to_hex kbuf) (fun key =>
-              if has_term key then
-                match split_string rest with
-                | None => Err
-                | Some (val, _) => Ok (NShort key (NVal val) fl)
-                end
-              else bind (decode_ref rest) (fun '(r, _) => Ok (NShort key r fl)))
+            let key := compact_to_hex kbuf in
+            if has_term key then
+              match split_string rest with
+              | None => Err
+              | Some (val, _) => Ok (NShort key (NVal val) fl)
+              end
+            else bind (decode_ref rest) (fun '(r, _) => Ok (NShort key r fl))
           end
         else if c =? 17 then
           (* decodeFull *)
